@@ -6,6 +6,7 @@ package harness
 // a regular-language monitor checks the event trace of every execution.
 
 import (
+	"flag"
 	"fmt"
 	"strings"
 	"time"
@@ -255,6 +256,39 @@ func c08Units(tier string, seed int64) []Unit {
 			}})
 		}
 	}
+	// unusual step budgets: the initial invariant check does not depend on -rapid.steps / -short
+	units = append(units, Unit{Name: "C08/step-budgets", Run: func(c *Ctx) {
+		defer flag.Set("rapid.steps", "30")
+		defer flag.Set("test.short", "false")
+		for _, steps := range []string{"0", "1", "2", "3", "30", "-1"} {
+			for _, short := range []string{"false", "true"} {
+				flag.Set("rapid.steps", steps)
+				flag.Set("test.short", short)
+				for _, inv := range []string{"pass", "fatal@1"} {
+					for bi, base := range []func(int) uint64{BaseZero, BaseOnes, BaseMid} {
+						e := &BitDFS{Base: base, Depth: 12, MaxDev: 1, Alpha: LevelAlpha(AlphaAll(2, AlphaCoin))}
+						e.Explore(c, func(src *Source, devs int) {
+							tr := &c08Trace{}
+							actions := map[string]func(*rapid.T){"a": c08Action(tr, "a", "draw"), "": c08Invariant(tr, inv)}
+							res := rapid.VerifRunSource(tb, src, false, func(t *rapid.T) { t.Repeat(actions) })
+							trace := strings.Join(tr.ev, " ")
+							c.Outcome(fmt.Sprintf("steps=%s short=%s %s %s", steps, short, kindName(res.Kind), trace), true)
+							replay := map[string]any{"engine": "bitdfs", "steps": steps, "short": short, "invariant": inv, "base": bi, "answers": src.Trace}
+							if msg := c08Monitor(tr.ev, true); msg != "" {
+								c.Violate(Violation{Sig: "C08 discipline " + sigOf(msg), Detail: fmt.Sprintf("-rapid.steps=%s -short=%s: %s\ntrace: %s", steps, short, msg, trunc(trace, 300)), Replay: replay, Devs: devs})
+							}
+							if len(tr.ev) == 0 || !strings.HasPrefix(tr.ev[0], "I:") {
+								c.Violate(Violation{Sig: "C08 initial-invariant-check-missing", Detail: fmt.Sprintf("-rapid.steps=%s -short=%s: Repeat returned (%s) without running the invariant before any action; trace: %q", steps, short, kindName(res.Kind), trace), Replay: replay, Devs: devs})
+							}
+							if inv == "fatal@1" && res.Kind != rapid.VerifFail {
+								c.Violate(Violation{Sig: "C08 falsification-not-reported", Detail: fmt.Sprintf("-rapid.steps=%s -short=%s: the invariant is broken in the initial state but the test case ended as %s", steps, short, kindName(res.Kind)), Replay: replay, Devs: devs})
+							}
+						})
+					}
+				}
+			}
+		}
+	}})
 	// StateMachineActions on a reflective machine
 	units = append(units, Unit{Name: "C08/StateMachineActions", Run: func(c *Ctx) {
 		for bi, base := range []func(int) uint64{BaseZero, BaseOnes, BaseMid} {
